@@ -681,6 +681,8 @@ fn shrink_in_child(prop: &str, scenario_json: &str, key: &(String, String), budg
 }
 
 pub struct RunOpts {
+    /// prove determinism first (thorough tier): same runs in other processes / environments
+    pub selftest_runs: u64,
     pub tier: Tier,
     pub seed: u64,
     pub workers: u64,
@@ -722,6 +724,12 @@ pub fn run_property(e: &dyn DynEngine, o: RunOpts) -> i32 {
     if let Ok(rd) = std::fs::read_dir(verif_dir().join("replays").join(prop)) {
         for f in rd.flatten() {
             let _ = std::fs::remove_file(f.path());
+        }
+    }
+    if o.selftest_runs > 0 {
+        let rc = selftest(e, o.seed, o.selftest_runs);
+        if rc != 0 {
+            return rc;
         }
     }
     let total = o.runs_override.unwrap_or_else(|| e.runs(o.tier));
@@ -945,6 +953,7 @@ pub fn run_property(e: &dyn DynEngine, o: RunOpts) -> i32 {
             "samples": m.sum.samples,
             "exhaustive": false,
             "engine": meta.engine,
+            "determinism_selftest": if o.selftest_runs > 0 { json!({"runs": o.selftest_runs, "process_layouts": 3, "ambient_environments": 3, "event_log_hash_mismatches": 0}) } else { json!("not part of the quick tier; see ./check selftest") },
             "runs": m.sum.evaluations,
             "runs_per_hour": if wall > 0.0 { (m.sum.evaluations as f64 / wall * 3600.0).round() } else { 0.0 },
             "workers": ranges.len(),
